@@ -253,3 +253,90 @@ def specialise(tree: ast.Module, rel: str, used_kws, max_pos: Dict[str, int], sp
 
     visit(tree.body, "", None)
     return tree, done
+
+
+# ---------------------------------------------------------------------------------------------------------------------------------------
+# named constants introduced after the pinned tree ("magic value -> _NAME") read as the literal they name
+# ---------------------------------------------------------------------------------------------------------------------------------------
+_BASEC = None
+
+
+def baseline_constants():
+    global _BASEC
+    if _BASEC is None:
+        p = os.path.join(os.path.dirname(os.path.abspath(__file__)), "baseline_constants.json")
+        try:
+            with open(p) as fh:
+                _BASEC = {k: set(v) for k, v in json.load(fh).items()}
+        except (OSError, ValueError):
+            _BASEC = {}
+    return _BASEC
+
+
+def _plain_literal(e) -> bool:
+    if isinstance(e, ast.Constant) and (e.value is None or isinstance(e.value, (str, int, float, bool))):
+        return True
+    if isinstance(e, ast.UnaryOp) and isinstance(e.op, (ast.USub, ast.UAdd)) and isinstance(e.operand, ast.Constant) and isinstance(e.operand.value, (int, float)):
+        return True
+    if isinstance(e, (ast.Tuple, ast.List)):
+        return all(_plain_literal(x) for x in e.elts)
+    if isinstance(e, ast.Dict):
+        return all(k is not None and _plain_literal(k) and _plain_literal(v) for k, v in zip(e.keys, e.values))
+    return False
+
+
+def inline_new_constants(tree: ast.Module, rel: str):
+    """A module-level `NAME = <literal>` / class-level `NAME = <literal>` that is not in the name inventory of the pinned tree, is bound exactly once and is
+    never the target of a store / `global` elsewhere reads as the literal at every use (`NAME`, `self.NAME`, `cls.NAME`, `Class.NAME`).  Only names the
+    module itself defines (a constant imported from another module is left alone).  Returns (tree, [names])."""
+    base = baseline_constants().get(rel)
+    if base is None:
+        return tree, []
+    done = []
+    stores = {}
+    for n in ast.walk(tree):
+        if isinstance(n, ast.Name) and isinstance(n.ctx, (ast.Store, ast.Del)):
+            stores[n.id] = stores.get(n.id, 0) + 1
+        elif isinstance(n, (ast.Global, ast.Nonlocal)):
+            for x in n.names:
+                stores[x] = stores.get(x, 0) + 2
+        elif isinstance(n, ast.arg):
+            stores[n.arg] = stores.get(n.arg, 0) + 1
+        elif isinstance(n, ast.Attribute) and isinstance(n.ctx, (ast.Store, ast.Del)):
+            stores["." + n.attr] = stores.get("." + n.attr, 0) + 1
+    mod_consts, cls_consts = {}, {}
+
+    def one(st):
+        tg = st.targets[0] if isinstance(st, ast.Assign) and len(st.targets) == 1 else (st.target if isinstance(st, ast.AnnAssign) and st.value is not None else None)
+        return (tg.id, st.value) if isinstance(tg, ast.Name) and _plain_literal(st.value) else (None, None)
+    for st in tree.body:
+        nm, v = one(st)
+        if nm and nm not in base and stores.get(nm) == 1 and nm.upper() == nm and any(c.isalpha() for c in nm):
+            mod_consts[nm] = v
+        if isinstance(st, ast.ClassDef):
+            for b in st.body:
+                nm, v = one(b)
+                if nm and f"{st.name}.{nm}" not in base and stores.get(nm) == 1 and not stores.get("." + nm) and nm.upper() == nm and any(c.isalpha() for c in nm):
+                    cls_consts.setdefault(st.name, {})[nm] = v
+    if not mod_consts and not cls_consts:
+        return tree, []
+    all_cls = {nm: v for d in cls_consts.values() for nm, v in d.items()}
+    dup = {nm for nm in all_cls if sum(1 for d in cls_consts.values() if nm in d) > 1}
+
+    class S(ast.NodeTransformer):
+        def visit_Name(self, n):
+            if isinstance(n.ctx, ast.Load) and n.id in mod_consts:
+                return ast.copy_location(copy.deepcopy(mod_consts[n.id]), n)
+            return n
+
+        def visit_Attribute(self, n):
+            self.generic_visit(n)
+            if isinstance(n.ctx, ast.Load) and isinstance(n.value, ast.Name) and n.attr in all_cls and n.attr not in dup \
+                    and (n.value.id in ("self", "cls") or n.value.id in cls_consts and n.attr in cls_consts[n.value.id]):
+                return ast.copy_location(copy.deepcopy(all_cls[n.attr]), n)
+            return n
+    # do not rewrite the defining statements' targets (Store ctx is skipped above); values of other constants may use constants: two passes
+    tree = S().visit(tree)
+    tree = S().visit(tree)
+    done = sorted(mod_consts) + sorted(f"{c}.{n}" for c, d in cls_consts.items() for n in d)
+    return tree, done
